@@ -4,10 +4,11 @@ package main
 
 // C05, close-after-WaitGroup with a FORCED schedule (hook: extractor.VerifTraceSetProbe).
 //
-//   closeord <present> <missing> <readers> <holdMs>
+//   closeord <present> <missing> <readers> <holdMs> [<dirs>]
 //
 //     The real batchers.OpenFilesToChan (<readers> >= 1) over <present> small files and <missing> names that do not
-//     exist – or, <readers> = 0, the real batchers.TailFilesToChan following <present> LIVE files (notify mode, no
+//     exist and <dirs> names of directories (the open works, the first read fails: the OnError callback of the sync
+//     loop) – or, <readers> = 0, the real batchers.TailFilesToChan following <present> LIVE files (notify mode, no
 //     re-open): the files are appended to while they are followed and then removed, which ends a plain follow.
 //
 //     The probe holds every reader goroutine at the entry of stopFileReading ("src.close") until the spawning
@@ -47,7 +48,11 @@ func c05CloseOrd(f []string) string {
 	missing, _ := strconv.Atoi(f[2])
 	readers, _ := strconv.Atoi(f[3])
 	holdMs, _ := strconv.Atoi(f[4])
-	if present < 0 || missing < 0 || present+missing < 1 || readers < 0 || holdMs < 0 {
+	dirs := 0 // names that are directories: the open works, the first read fails (the OnError callback: incErrors + log)
+	if len(f) > 5 {
+		dirs, _ = strconv.Atoi(f[5])
+	}
+	if present < 0 || missing < 0 || dirs < 0 || present+missing+dirs < 1 || readers < 0 || holdMs < 0 {
 		return "bad-args"
 	}
 	dir, err := os.MkdirTemp(os.Getenv("VERIF_WORK"), "c05ord")
@@ -70,6 +75,11 @@ func c05CloseOrd(f []string) string {
 	}
 	for i := 0; i < missing; i++ {
 		names = append(names, filepath.Join(dir, fmt.Sprintf("missing%02d", i)))
+	}
+	for i := 0; i < dirs; i++ {
+		p := filepath.Join(dir, fmt.Sprintf("dir%02d", i))
+		os.Mkdir(p, 0o755)
+		names = append(names, p)
 	}
 	for i := range names { // missing names in between
 		j := (i*5 + 2) % len(names)
@@ -120,7 +130,7 @@ func c05CloseOrd(f []string) string {
 		captureStderr(func() {}) // flush what was deferred into a pipe nobody looks at
 	}()
 	if readers == 0 {
-		b = batchers.TailFilesToChan(ch, 10, 2, false, false, false)
+		b = batchers.TailFilesToChan(ch, 10, 2, false, false, present%2 == 0) // even: --tail (Drain: start at the end of the file)
 		bp.Store(b)
 		drained := make(chan struct{})
 		var got int64
@@ -139,7 +149,7 @@ func c05CloseOrd(f []string) string {
 			}
 			return false
 		}
-		if !waitFor(func() bool { return b.ActiveFileCount() == present }) {
+		if !waitFor(func() bool { return b.ActiveFileCount() == present && b.ReadErrors() == missing+dirs }) {
 			return "ok never-followed"
 		}
 		for _, p := range live {
@@ -178,8 +188,8 @@ func c05CloseOrd(f []string) string {
 	}
 	after := b.ActiveFileCount()
 	wantStatus := func(st string) int {
-		if present+missing > 1 && readers != 0 { // TailFilesToChan never sets a source count: no [n/m] in follow mode
-			if strings.HasPrefix(st, fmt.Sprintf("[%d/%d] ", present, present+missing)) && !strings.Contains(st, "|") {
+		if present+missing+dirs > 1 && readers != 0 { // TailFilesToChan never sets a source count: no [n/m] in follow mode
+			if strings.HasPrefix(st, fmt.Sprintf("[%d/%d] ", present+dirs, present+missing+dirs)) && !strings.Contains(st, "|") {
 				return 1
 			}
 			return 0
@@ -209,7 +219,8 @@ func c05CloseOrdGen(r *Rand, tier string) []string {
 	if tier == "thorough" {
 		n = 12
 	}
-	out := []string{"closeord 6 0 3 8", "closeord 3 0 0 8"}
+	out := []string{"closeord 6 0 3 8", "closeord 3 0 0 8", fmt.Sprintf("closeord %d %d %d 3 %d", Pick(r, []int{0, 2, 5}), Pick(r, []int{0, 1}), Pick(r, []int{1, 3}), Pick(r, []int{1, 2})),
+		fmt.Sprintf("closeord %d 0 0 3 1", Pick(r, []int{1, 2}))}
 	for i := 0; i < n; i++ {
 		out = append(out, fmt.Sprintf("closeord %d %d %d %d", Pick(r, []int{1, 2, 5, 12}), Pick(r, []int{0, 0, 1, 3}),
 			Pick(r, []int{1, 2, 3, 8}), Pick(r, []int{0, 2, 6})))
